@@ -145,6 +145,28 @@ def shard_seq(arg):
                                           (case, err.tolist(), exp.tolist()),
                                           case, {"kind": "order"})
                             continue
+                        # one metric object used repeatedly (a loop over
+                        # several estimates): every evaluation must stand on
+                        # its own, and the trajectories must stay untouched
+                        if pat == 1:
+                            from evo.core import metrics as _m
+                            mo = _m.APE(_m.PoseRelation[rel])
+                            mo.process_data((ref, est))
+                            mo.get_all_statistics()
+                            mo.process_data((est, ref))
+                            mo.process_data((ref, est))
+                            again = np.array(mo.error, dtype=float)
+                            fresh = np.array(_ape(ref, est, rel).error)
+                            acc.count("transitions", 4)
+                            if again.shape != exp.shape or np.abs(
+                                    again - exp).max() > tol_for(rel, 10) \
+                                    or np.abs(fresh - exp).max() > tol_for(
+                                        rel, 10):
+                                acc.violation(
+                                    "seq", "%s: repeated evaluation gives %s, "
+                                    "first gave %s" % (case, again.tolist(),
+                                                       exp.tolist()), case,
+                                    {"kind": "reuse"})
                         # corollaries (real code on both sides)
                         if pat == 0:
                             z = np.array(_ape(ref, ref, rel).error)
@@ -199,7 +221,7 @@ DIMS = [
     ("relation", ["full", "trans_part", "rot_part", "angle_deg", "angle_rad",
                   "point_distance"]),
     ("align", ["none", "a", "s", "as", "origin", "s+origin"]),
-    ("n_to_align", [-1, 4]),
+    ("n_to_align", [-1, 4, 6]),
     ("downsample", [None, 5]),
     ("motion_filter", [None, (0.5, 30.0), (100.0, 40.0)]),
     ("t_max_diff", [0.01, 0.3]),
@@ -208,13 +230,16 @@ DIMS = [
     ("project", [None, "xy", "xz", "yz"]),
     ("unit", [None, "compatible", "incompatible"]),
     ("fmt", ["tum", "kitti", "euroc"]),
+    ("epoch", [0.0, 1.5e9]),
 ]
 
 
 def normalise(pt):
     pt = dict(pt)
+    pt.setdefault("epoch", 0.0)
     if pt["fmt"] == "kitti":
         pt["t_max_diff"], pt["t_offset"], pt["crop"] = 0.01, 0.0, None
+        pt["epoch"] = 0.0
     if pt["align"] in ("none", "origin"):
         pt["n_to_align"] = -1
     return pt
@@ -318,7 +343,7 @@ def self_test():
     base = {"relation": "full", "align": "none", "n_to_align": -1,
             "downsample": None, "motion_filter": None, "t_max_diff": 0.01,
             "t_offset": 0.0, "crop": None, "project": None, "unit": None,
-            "fmt": "tum"}
+            "fmt": "tum", "epoch": 0.0}
 
     def sig(pt):
         try:
@@ -357,14 +382,15 @@ def lattice_points(ctx):
         # + the full product over a reduced lattice (TUM input, two values
         # per secondary dimension)
         sub = [("relation", DIMS[0][1]), ("align", DIMS[1][1]),
-               ("n_to_align", [-1, 4]), ("downsample", [None, 5]),
+               ("n_to_align", [-1, 4, 6]), ("downsample", [None, 5]),
                ("motion_filter", [None, (0.5, 30.0)]),
                ("t_max_diff", [0.01, 0.3]), ("t_offset", [0.0, 0.125]),
                ("crop", [None, (1.5, 3.5)]), ("project", [None, "xz"]),
-               ("unit", [None, "compatible"]), ("fmt", ["tum"])]
+               ("unit", [None, "compatible"]), ("fmt", ["tum"]),
+               ("epoch", [0.0, 1.5e9])]
         pts += lattice.product(sub)
         sub2 = [("relation", ["full", "trans_part", "angle_deg"]),
-                ("align", DIMS[1][1]), ("n_to_align", [-1, 4]),
+                ("align", DIMS[1][1]), ("n_to_align", [-1, 4, 6]),
                 ("fmt", ["kitti", "euroc"]), ("project", [None, "xy", "yz"]),
                 ("downsample", [None, 5])]
         base = {"motion_filter": None, "t_max_diff": 0.01, "t_offset": 0.0,
